@@ -1,5 +1,5 @@
 (* C12 - the property theorems, nothing else. *)
-From CfdmV Require Import Common.Base Common.PySlice C03.Model C03.Lemmas C12.Model C12.Spec C12.Lemmas.
+From CfdmV Require Import Common.Base Common.PySlice C03.Model C03.Lemmas C12.Model C12.Spec C12.Lemmas Tables.C12Unpack.
 Open Scope Z_scope.
 
 (* No file is left open once a data access has returned - or raised: for every
@@ -43,25 +43,28 @@ Proof. exact read_unrestricted_refuted. Qed.
 Print Assumptions C12_lazy_read_unrestricted_refuted.
 
 (* After read every variable that is neither a scalar coordinate nor such a node
-   coordinate is held as (file, address, shape): nothing of it is in memory. *)
+   coordinate is held as (file, address, shape, declared data type): nothing of
+   it is in memory. *)
 Theorem C12_read_on_disk :
   forall C dk f ds d, In d ds -> vd_role d <> RScalarCoord -> vd_role d <> RNodeCoord ->
-  In (OnDisk f (vd_var d) (vd_shape d)) (fst (read C dk f ds)).
+  In (OnDisk f (vd_var d) (vd_shape d) (declared_of C dk f d)) (fst (read C dk f ds)).
 Proof. exact read_on_disk. Qed.
 Print Assumptions C12_read_on_disk.
 
 (* A subspace of file data fetches only that part: one open, one fetch of exactly
    the positions the index expression selects (all inside the variable), one
-   close, and the new object holds just those elements; a subspace that raises
-   has fetched nothing; data already in memory never touches a file. *)
+   close, and the new object holds just those elements, unpacked, with the data
+   type netcdf_indexer gives them; a subspace that raises has fetched nothing;
+   data already in memory never touches a file. *)
 Theorem C12_fetch_only :
-  forall C dk f v sh idx r t,
-  Forall (fun n => 0 <= n) sh -> sub C dk (OnDisk f v sh) idx = (r, t) ->
+  forall C dk f v sh d idx r t,
+  Forall (fun n => 0 <= n) sh -> sub C dk (OnDisk f v sh d) idx = (r, t) ->
   match r with
-  | Ok c' => exists ps poss a,
-      parse_indices sh idx = Ok ps /\ positions_all sh ps = Ok poss /\ dk f v = Some a /\
+  | Ok c' => exists ps poss st,
+      parse_indices sh idx = Ok ps /\ positions_all sh ps = Ok poss /\ dk f v = Some st /\
       t = [EOpen f; EFetch f v poss; EClose f] /\
-      c' = InMem (zshape (map (@length nat) poss)) (c_fetch C a poss) /\
+      c' = InMem (zshape (map (@length nat) poss)) (s_realised st)
+                 (nd_map (unpack_val (s_dt st) (s_pack st)) (c_fetch C (s_raw st) poss)) /\
       Forall2 (fun n p => Forall (fun i => Z.of_nat i < n) p) sh poss
   | Err _ => fetches t = []
   end.
@@ -69,14 +72,18 @@ Proof. exact sub_fetch_only. Qed.
 Print Assumptions C12_fetch_only.
 
 Theorem C12_in_memory_no_file_access :
-  forall C dk sh a idx, snd (sub C dk (InMem sh a) idx) = [] /\ snd (realise C dk (InMem sh a)) = [].
+  forall C dk sh d a idx, snd (sub C dk (InMem sh d a) idx) = [] /\ snd (realise C dk (InMem sh d a)) = [].
 Proof. exact in_memory_no_file_access. Qed.
 Print Assumptions C12_in_memory_no_file_access.
 
 (* Lazy access gives the same data as eager access: for every history (any
    length, any interleaving, errors included) the results of the file-array
-   machine are the results of the same history run on the arrays themselves
-   (Spec.v: numpy selection and assignment, no files, no backend). *)
+   machine - values, shapes, DATA TYPES, equality, errors - are the results of
+   the same history run on the unpacked arrays themselves (Spec.v: numpy
+   selection and assignment, no files, no backend).  The variables may be
+   packed (scale_factor / add_offset of any type, _Unsigned); cell_ok asks that
+   a file array declares the data type its data will have in memory, which
+   C12_read_declares_realised_dtype shows for everything read returns. *)
 Theorem C12_lazy_is_eager :
   forall C dk h ops, Forall (cell_ok dk) h -> fetch_ok C dk ->
   map fst (run C dk h ops) = vrun (map (val dk) h) ops.
@@ -100,8 +107,8 @@ Print Assumptions C12_to_memory_transparent.
 
 (* Subspacing then realising equals realising then subspacing. *)
 Theorem C12_subspace_commutes :
-  forall C dk c idx a, cell_ok dk c -> fetch_ok C dk -> fst (realise C dk c) = Ok a ->
-  fst (sub C dk c idx) = fst (sub C dk (InMem (cshape c) a) idx).
+  forall C dk c idx d a, cell_ok dk c -> fetch_ok C dk -> fst (realise C dk c) = Ok (d, a) ->
+  fst (sub C dk c idx) = fst (sub C dk (InMem (cshape c) d a) idx).
 Proof. exact subspace_commutes. Qed.
 Print Assumptions C12_subspace_commutes.
 
@@ -135,11 +142,84 @@ Theorem C12_backends_agree :
 Proof. exact backends_agree. Qed.
 Print Assumptions C12_backends_agree.
 
-(* Non-vacuity: a concrete history meeting the hypotheses above, with real work. *)
+(* Non-vacuity: a concrete history meeting the hypotheses above, with real work,
+   on a short variable packed with a float32 scale_factor 2 and a float64 add_offset 0. *)
 Theorem C12_example :
   Forall (cell_ok dk_ex) heap_ex /\
   map fst (run cfg_h5 dk_ex heap_ex
-             [OSub 0 [IList [2; 0; 2]; ISlice None None (Some (-3))]; OArr 1; OSet 1 [IInt 0] None; OFirst 1; OEq 0 1]) =
-  [ONone; OArray [3; 2] [Some 11; Some 8; Some 3; Some 0; Some 11; Some 8]; ONone; OArray [] [None]; OBool false].
+             [OSub 0 [IList [2; 0; 2]; ISlice None None (Some (-3))]; OArr 1; OSet 1 [IInt 0] None; OFirst 1; OEq 0 1;
+              OCopy 0; OToMem 2; OEq 0 2]) =
+  [ONone; OArray [3; 2] F8 [Some 22; Some 16; Some 6; Some 0; Some 22; Some 16]; ONone; OArray [] F8 [None]; OBool false;
+   ONone; ONone; OBool true].
 Proof. exact denote_example. Qed.
 Print Assumptions C12_example.
+
+(* ---- data types: packed and unsigned variables ---------------------------------- *)
+
+(* The Gallina promote / realised_dt / unpack_z ARE numpy.promote_types and
+   netcdf_indexer (_Unsigned view, _unpack) on the whole finite domain: every
+   variable type x _Unsigned x scale_factor (any type; one or not) x add_offset
+   (any type; zero or not) - the type of the array returned for an empty array
+   (which is how read finds the type to declare) and for one with elements, and
+   the unpacked sample values.  Tables regenerated from the tree under test on
+   every build (harness/tables_d/c12.py), swept by vm_compute. *)
+Theorem C12_promote_is_numpy :
+  forall a b c, In (a, b, c) numpy_promote_table -> dt_code (promote (dt_of_code a) (dt_of_code b)) = c.
+Proof. exact promote_is_numpy. Qed.
+Print Assumptions C12_promote_is_numpy.
+
+Theorem C12_unpack_is_indexer :
+  forall v uns sf ao got raw vals, In (v, uns, sf, ao, got, raw, vals) indexer_unpack_table ->
+  dt_code (realised_dt (dt_of_code v) (pack_of_row uns sf ao)) = got /\
+  map (unpack_z (dt_of_code v) (pack_of_row uns sf ao)) raw = vals.
+Proof. exact unpack_is_indexer. Qed.
+Print Assumptions C12_unpack_is_indexer.
+
+(* Unpacking is elementwise: the part of the unpacked array that an index
+   selects is the unpacked part (what makes a subspace of packed file data right). *)
+Theorem C12_unpack_commutes_with_subspace :
+  forall g poss a, orth_take poss (nd_map g a) = nd_map g (orth_take poss a).
+Proof. exact orth_take_nd_map. Qed.
+Print Assumptions C12_unpack_commutes_with_subspace.
+
+(* Every object read returns declares the data type its data will have in memory
+   (cell_ok), whatever the packing attributes and the role of the variable ... *)
+Theorem C12_read_declares_realised_dtype :
+  forall C dk f ds, declares_realised C -> Forall (vdesc_ok dk f) ds ->
+  Forall (cell_ok dk) (fst (read C dk f ds)).
+Proof. exact read_cells_ok. Qed.
+Print Assumptions C12_read_declares_realised_dtype.
+
+(* ... hence every history on what read returned shows what eager access shows,
+   data types included: bringing data into memory changes no result ... *)
+Theorem C12_read_then_lazy_is_eager :
+  forall C dk f ds ops, declares_realised C -> fetch_ok C dk -> Forall (vdesc_ok dk f) ds ->
+  map fst (run C dk (fst (read C dk f ds)) ops) = vrun (map (val dk) (fst (read C dk f ds))) ops.
+Proof. exact read_then_lazy_is_eager. Qed.
+Print Assumptions C12_read_then_lazy_is_eager.
+
+(* ... and x.equals(a copy of x brought into memory) is True. *)
+Theorem C12_equals_own_memory_copy :
+  forall C dk f ds i c, declares_realised C -> fetch_ok C dk -> Forall (vdesc_ok dk f) ds ->
+  nth_error (fst (read C dk f ds)) i = Some c -> content dk c <> None ->
+  map fst (run C dk (fst (read C dk f ds))
+             [OCopy i; OToMem (length (fst (read C dk f ds))); OEq i (length (fst (read C dk f ds)))]) =
+  [ONone; ONone; OBool true].
+Proof. exact read_equals_own_memory_copy. Qed.
+Print Assumptions C12_equals_own_memory_copy.
+
+(* Non-vacuity: both configurations meet declares_realised; a packed coordinate
+   variable and signed bytes marked _Unsigned, read and compared with their own
+   copies in memory. *)
+Theorem C12_declared_dtype_example :
+  declares_realised cfg_nc4 /\ declares_realised cfg_h5 /\ Forall (vdesc_ok dk_ex 0) ds_packed /\
+  map cdtype (fst (read cfg_nc4 dk_ex 0 ds_packed)) = [F8; F4; U1] /\
+  map fst (run cfg_h5 dk_ex (fst (read cfg_h5 dk_ex 0 ds_packed))
+             [OCopy 1; OToMem 3; OEq 1 3; OCopy 2; OToMem 4; OEq 2 4; OArr 1; OArr 2]) =
+    [ONone; ONone; OBool true; ONone; ONone; OBool true;
+     OArray [3] F4 [Some 2; Some 4; Some 6]; OArray [2] U1 [Some 255; Some 3]].
+Proof.
+  split; [exact declares_realised_nc4|]. split; [exact declares_realised_h5|].
+  split; [exact ds_packed_ok|]. exact declared_example.
+Qed.
+Print Assumptions C12_declared_dtype_example.
